@@ -68,3 +68,27 @@ def jsonable(x):
     if isinstance(x, (str, int, bool)) or x is None:
         return x
     return repr(x)
+
+
+def is_root(name):
+    """Outputs that are square roots of a variance (std-dev / std-err / MoE families)."""
+    return any(t in name for t in ("std_dev", "std_err", "_moe", "stddev", "stderr", "_moes"))
+
+
+def roots_close(a, b):
+    """Element-wise `close`, except that tiny values are compared in the variance domain:
+    with weights that are not exactly representable a variance of 0 comes out as +-1e-16
+    depending on the order of summation, and its root as 0 or 1e-8."""
+    import numpy as np
+    try:
+        aa, bb = np.asarray(a, dtype=float), np.asarray(b, dtype=float)
+    except (TypeError, ValueError):
+        return False
+    if aa.shape != bb.shape:
+        return False
+    for x, y in zip(aa.ravel().tolist(), bb.ravel().tolist()):
+        if close(x, y):
+            continue
+        if x != x or y != y or x < 0 or y < 0 or abs(x * x - y * y) > 1e-12:
+            return False
+    return True
